@@ -45,4 +45,4 @@ ASSUMPTIONS = ['tier S: one call of one real state-machine function from an arbi
                'QoS-override side paths (_dispatch_queue_override_self) are excluded: states with role BASE_ANON and max-QoS > 0 are outside the drain_try_lock lemma',
                'rmw retry loops unwound 5 times with unwinding assertions (2 interferences need at most 3 iterations)']
 LEVEL_TEXT = 'Tier S: all four ways of acquiring a queue (drain lock, barrier-sync fast path, sync reader width, async width) from all 2^64 state words and widths with bounded interference: the exclusion lemma (nothing is acquired while another owner holds the queue in barrier mode; the barrier-sync fast path only from the completely idle word; readers never overtake queued items). Tier H: all sequences up to length 3 (thorough 4) of async/sync/barrier_sync/async_and_wait/worker on a serial queue with FIFO and one-at-a-time assertions, plus nested histories in which a second client thread submits synchronously while an item is running (overlap would be an assertion failure). Main queue: every synchronous submission API on the real static _dispatch_main_q held by another thread (all other state bits arbitrary) enqueues and sleeps, never runs its item inline; on an idle serial queue every synchronous API in its function, plain-block and block-object (dispatch_block_create) form runs the item only while the caller is the exclusive owner (owner = caller, IN_BARRIER) and leaves the queue idle. Histories also on a serial queue targeting the real thread-bound MAIN queue and on the main queue itself: the run-loop poke is a recorded hand-off and the main thread (model thread 1) drains with the real _dispatch_main_queue_callback_4CF / _dispatch_main_queue_drain; synchronous items submitted from another thread are run remotely by the main thread.'
-LEVEL_NOTE = 'Sequential histories; a second client that has to sleep ends its path (everything before is checked); interference bound 2; QoS override side paths excluded; main-queue vtable variant not exercised. The main queue's run-loop handle (eventfd) is a stub: a poke is a recorded hand-off; dispatch_main() (unbinding the main queue) is not exercised in histories.'
+LEVEL_NOTE = 'Sequential histories; a second client that has to sleep ends its path (everything before is checked); interference bound 2; QoS override side paths excluded; the run-loop handle (eventfd) of the main queue is a stub: a poke is a recorded hand-off; dispatch_main() (unbinding the main queue) is not exercised in histories.'
